@@ -111,6 +111,26 @@ def _check_1d(desc, tier, V, st):
                     V('complex-coefficients:' + cls, '%s data=%s: complex coefficients off by %.3g' % (key, name, np.abs(np.asarray(splc.coeffs) - want).max()))
         except Exception as e:  # noqa
             V('complex-exception:%s:%s' % (cls, type(e).__name__), '%s: complex interpolation raised %s: %s' % (key, type(e).__name__, e))
+    # interpolator and spline created with different dtype arguments (real data): the coefficients are still the solution
+    for idt, sdt in ((float, complex),):          # (complex interpolator, real spline) is refused by the library itself on periodic spaces
+        try:
+            import warnings
+            iti = SplineInterpolator1D(bs, dtype=idt)
+            spm = Spline1D(bs, sdt)
+            u = np.cos(pts) + 0.3 * pts
+            st['evals'] += 1
+            if nontriv:
+                st['nontrivial'] += 1
+            with warnings.catch_warnings():
+                warnings.simplefilter('ignore')
+                iti.compute_interpolant(u.astype(idt), spm)
+            want = S.coeffs(u)
+            tol = 64 * EPS * cond * (d + 1) * max(1.0, float(np.abs(u).max()))
+            if not (np.abs(np.asarray(spm.coeffs) - want).max() <= tol):
+                V('mixed-dtype-coefficients:' + cls, '%s: %s interpolator with %s spline: coefficients off by %.3g' % (
+                    key, idt.__name__, sdt.__name__, np.abs(np.asarray(spm.coeffs) - want).max()))
+        except Exception as e:  # noqa
+            V('mixed-dtype-exception:%s:%s' % (cls, type(e).__name__), '%s: %s interpolator with %s spline raised %s: %s' % (key, idt.__name__, sdt.__name__, type(e).__name__, e))
 
 
 def _check_2d(da, db, tier, V, st):
